@@ -184,6 +184,7 @@ func main() {
 	scale := flag.Int("scale", 1, "multiplier of the scenario counts")
 	limit := flag.Int("limit", 0, "run only the first N scenarios (debugging)")
 	chunk := flag.String("chunk", "", "internal: run scenarios a:b and write part_a.json")
+	corpus := flag.String("corpus", "", "directory of regression replays (<only>-*.json), run first")
 	verbose := flag.Bool("v", false, "print every scenario and its duration")
 	flag.Parse()
 	if *out == "" {
@@ -219,6 +220,30 @@ func main() {
 		}
 		scens = []scenario{rp.Input}
 	} else {
+		// corpus first: the replays of the repaired findings (and of anything recorded later)
+		if *corpus != "" {
+			pat := "C0[67]-*.json"
+			if *only != "" {
+				pat = *only + "-*.json"
+			}
+			files, _ := filepath.Glob(filepath.Join(*corpus, pat))
+			sort.Strings(files)
+			for _, f := range files {
+				raw, err := os.ReadFile(f)
+				if err != nil {
+					genErr = append(genErr, err.Error())
+					continue
+				}
+				var rp struct {
+					Input scenario `json:"input"`
+				}
+				if err := json.Unmarshal(raw, &rp); err != nil || rp.Input.Kind == "" {
+					genErr = append(genErr, "corpus file "+f+" is not a scenario")
+					continue
+				}
+				scens = append(scens, rp.Input)
+			}
+		}
 		if *only == "" || *only == "C07" {
 			scens = append(scens, genClose(*seed, nClose, thorough, work, &genErr)...)
 		}
@@ -275,7 +300,7 @@ func main() {
 				defer func() { <-sem }()
 				cout := filepath.Join(*out, fmt.Sprintf("chunk_%d", jb.a))
 				args := []string{"-seed", fmt.Sprint(*seed), "-tier", *tier, "-out", cout, "-only", *only,
-					"-scale", fmt.Sprint(*scale), "-chunk", fmt.Sprintf("%d:%d", jb.a, jb.b)}
+					"-scale", fmt.Sprint(*scale), "-corpus", *corpus, "-chunk", fmt.Sprintf("%d:%d", jb.a, jb.b)}
 				if *limit > 0 {
 					args = append(args, "-limit", fmt.Sprint(*limit))
 				}
@@ -596,7 +621,31 @@ func genSched(seed uint64, n int, thorough bool, work string, errs *[]string) []
 		}
 		out = append(out, sc)
 	}
-	// F12: a preload-hint request, looked up, then overtaken by 8 segment rotations
+	// a preload-hint request that has been looked up (or is about to take the mutex) while the
+	// writer completes that part AND later ones: it must still be answered with its own part
+	for _, streams := range []int{1, 2} {
+		cfg := mcfg{Variant: "LL", SegCount: 7, Streams: streams}
+		for _, h := range [][]bool{{true, false, false}, {true, false, false, true, false, false}} {
+			s, err := quickSnapshot(cfg, h, work)
+			if err != nil {
+				*errs = append(*errs, err.Error())
+				continue
+			}
+			for _, frames := range [][]bool{
+				{false, false, false, false},                             // two part rotations
+				{false, false, false, false, false, false},               // three
+				{false, false, true, false, false},                       // a part, a segment, a part
+				{false, false, false, false, true, false, false, false, false}, // ... and two segments later
+			} {
+				for k := 0; k < streams; k++ {
+					out = append(out, scenario{Kind: "evict", Cfg: cfg, History: h,
+						Reqs:   []areq{{Kind: "path", Stream: k, PKind: "part", ID: uint64(s.Streams[k].NextPartID)}},
+						Frames: frames})
+				}
+			}
+		}
+	}
+	// former F12: a preload-hint request, looked up, then overtaken by 8 segment rotations
 	{
 		cfg := mcfg{Variant: "LL", SegCount: 7, Streams: 1}
 		h := []bool{true, false, false}
